@@ -27,7 +27,7 @@ def run(ctx):
         ctx.corr(hx, ["hist", "--n", "500", "--len", "36"])
     ctx.assumptions += [
         "sequential histories only (one caller at a time); concurrent use of the same store is property C05",
-        "iteration consumers are modelled as 'return false on the n-th call'; a consumer that calls back into the store during iteration sees the snapshot semantics of mapdb and is not generated",
+        "iteration consumers are scripts: 'at callback j perform these plain history operations through any view / wrapper / batch, return false on the n-th call' (HIterRe; generated and modelled since round 2); a consumer that starts another re-entrant iteration inside a callback (nesting depth > 1) or creates views inside a callback is modelled (any op list) but not generated",
         "the realm buffer passed to WithRealm is not mutated by the caller afterwards (mapdb keeps that slice; outside the statement's aliasing clause, see notes/C04.md)",
         "the store below the wrappers is mapdb; flushkv/debug over another KVStore implementation inherit that store's behaviour",
     ]
